@@ -340,6 +340,16 @@ def st_Try(eng, node, st):
                 s.env[h.name] = Val(('opaque', 'exception'), z3.IntVal(0))
             s.trail.append("except %s@L%d" % (o[1], h.lineno))
             res += exec_block(eng, h.body, s)
+        elif o[0] == 'raise' and o[1] == 'WorkerError' and node.handlers:
+            # a worker may fail with an exception of ANY type (the task re-raises what the solver raised): a handler for a
+            # specific type may therefore catch it.  Both outcomes are explored: it passes by, or each handler takes it.
+            res.append((o, s.copy()))
+            for h in node.handlers:
+                s2 = s.copy()
+                if h.name:
+                    s2.env[h.name] = Val(('opaque', 'exception'), z3.IntVal(0))
+                s2.trail.append("except %s@L%d catches a worker failure of that type" % (h.type.id, h.lineno))
+                res += exec_block(eng, h.body, s2)
         else:
             res.append((o, s))
     return res
